@@ -83,7 +83,11 @@ def schemes():
     return S
 
 
-INITS = ["random-real", "random-complex", "right-canonical", "centre-mid", "product", "mpdm", "small-norm", "large-norm"]
+INITS = ["random-real", "random-complex", "right-canonical", "centre-mid", "product", "mpdm", "small-norm", "large-norm",
+         "sum-after-canonicalise", "apply-after-canonicalise"]
+# the last two: histories that leave the FLAGS of a right-canonical state (to_right=True, centre at site 0) on tensors that are not
+# right-canonical any more (gauge sweep, then a sum / an operator application without re-gauging)
+FLAGGED_NOT_CANONICAL = ("sum-after-canonicalise", "apply-after-canonicalise")
 MODELS = [("elec", 3, [1]), ("eph", 4, [1]), ("spin", 3, [0])]
 # an eigenstate with eigenvalue zero (H|psi> = 0 exactly): the vacuum of the electronic chain
 ZERO_MODELS = [("elec", 3, [0])]
@@ -104,6 +108,8 @@ def cases(tier, seed):
                         continue
                 if init == "mpdm" and sname.split(":")[0] in ("cmf-midpoint", "cmf-first-order", "cmf-trapz", "vmf", "mu-vmf"):
                     continue     # complete-bond density operators have tiny singular values: same ill-conditioning, value dependent
+                if init in FLAGGED_NOT_CANONICAL and sname.split(":")[0] in ("cmf-midpoint", "cmf-first-order", "cmf-trapz", "vmf", "mu-vmf"):
+                    continue     # over-complete bonds after the sum: the mean-field schemes abort there (known finding), PS / PS2 / P&C take these
                 if init == "product" and sname.split(":")[0] in ("cmf-midpoint", "cmf-first-order", "cmf-trapz", "vmf", "mu-vmf"):
                     # bonds grown from a product state carry singular values ~1e-8: the regularised mean-field equations are
                     # ill-conditioned there (value dependent, DESIGN.md section 8) -- the product state is propagated by P&C, PS2 and PS
@@ -157,6 +163,18 @@ def make_init(ch, sec, init, H):
         s = ch.product_mps(cs[:sec[0]] if ch.family != "spin" else [])
         s.compress_config = CompressConfig(CompressCriteria.fixed, max_bonddim=8)
         s = s.expand_bond_dimension(H, coef=1e-8)
+        s.coeff = 1
+        return s
+    if init in FLAGGED_NOT_CANONICAL:
+        a = ch.random_mps(sec, m, "c09", cplx=True)
+        a.canonicalise()                       # one sweep: to_right=True, centre at site 0, right-canonical
+        if init == "sum-after-canonicalise":
+            b = ch.random_mps(sec, m, "c09b", cplx=True)
+            b.canonicalise()
+            s = a.add(b)
+        else:
+            s = H.apply(a)
+        s.normalize("mps_only")
         s.coeff = 1
         return s
     s = ch.random_mps(sec, m, "c09", cplx=(init != "random-real"))
@@ -515,7 +533,61 @@ def run_truncated(desc, seed):
             if refusal(e):
                 continue
             add(viol, f"C09:truncated:exception:{classify_exception(e)}:{desc['scheme'].split(':')[0]}", f"{tag} M={M}: {e!r}")
+    if desc["scheme"] in ("ps:krylov", "ps2:krylov", "ps:RK45", "ps2:RK45") and desc["fam"] == MODELS[0][0]:
+        nrun += gauge_history_block(desc, seed, spec, viol, tag)
     return {"nontrivial": nrun > 0, "counters": {"evolve_calls": nrun}, "outcome": f"trunc:{'viol' if viol else 'ok'}", "viol": list(viol.values()), "sample": {"desc": desc}}
+
+
+def gauge_history_block(desc, seed, spec, viol, tag, times=("real", "imag"), sigprefix="C09"):
+    """projector splitting at TRUNCATED bond dimension on a state whose flags say 'right-canonical, centre at site 0' while its tensors
+    are not (gauge sweep, then a sum or an operator application): the result must equal the result for the re-gauged copy of the same
+    vector, and one-site splitting must conserve norm and energy in real time.  Needs a chain long enough for an incomplete bond."""
+    import copy as _copy
+    from renormalizer.utils import CompressConfig, CompressCriteria
+    nrun = 0
+    for fam, n, sec in (("spin", 6, [0]), ("elec", 5, [2])):
+        ch = Chain(fam, n, seed)
+        H = ch.mpo_neutral()
+        for hist in ("sum", "apply"):
+            a = ch.random_mps(sec, 2, "c09gh-a", cplx=True)
+            a.canonicalise()
+            if hist == "sum":
+                b = ch.random_mps(sec, 2, "c09gh-b", cplx=True)
+                b.canonicalise()
+                s = a.add(b)
+            else:
+                s = H.apply(a)
+            s.normalize("mps_only")
+            s.coeff = 1
+            M = max(s.bond_dims)
+            for timek in times:
+                step = 0.1 if timek == "real" else -0.1j
+                s1, s2 = _copy.deepcopy(s), _copy.deepcopy(s)
+                s2.ensure_left_canonical()
+                s2.canonicalise()
+                if not close(dense_of(s2), dense_of(s1), 1e-10):
+                    continue      # (owned by C04)
+                try:
+                    e0 = s1.expectation(H)
+                    r1 = evolve_once(s1, H, step, make_config(spec), M=M)
+                    r2 = evolve_once(s2, H, step, make_config(spec), M=M)
+                    nrun += 2
+                except Exception as e:
+                    if refusal(e):
+                        continue
+                    add(viol, f"{sigprefix}:gauge-history:exception:{classify_exception(e)}:{desc['scheme'].split(':')[0]}", f"{tag} [{fam} n={n} {hist} {timek}]: {e!r}")
+                    continue
+                d1, d2 = dense_of(r1), dense_of(r2)
+                dev = np.linalg.norm(d1 - d2) / max(np.linalg.norm(d2), 1e-300)
+                if dev > 1e-6:
+                    add(viol, f"{sigprefix}:gauge-history:result-depends-on-input-gauge:{desc['scheme'].split(':')[0]}:{timek}",
+                        f"{tag} [{fam} n={n} history: sweep, then {hist}; {timek} step; bond dims {s.bond_dims}]: the result differs from the result for the re-gauged copy of the same vector by rel {dev:.2e}")
+                if timek == "real" and desc["scheme"].startswith("ps:"):
+                    if abs(r1.mp_norm - 1) > 1e-8:
+                        add(viol, f"{sigprefix}:ps:norm-not-conserved", f"{tag} [{fam} n={n} history {hist}]: norm {r1.mp_norm}")
+                    if abs(r1.expectation(H) - e0) > 1e-7 * max(1.0, abs(e0)):
+                        add(viol, f"{sigprefix}:ps:energy-not-conserved", f"{tag} [{fam} n={n} history {hist}]: energy {e0} -> {r1.expectation(H)}")
+    return nrun
 
 
 def run_solver(desc, seed):
